@@ -152,4 +152,13 @@ def r05_4(ctx):
     return [a, b]
 
 
-RULES = [r05_1, r05_2, r05_3, r05_4]
+def r05_5(ctx):
+    from rules import C01
+    o = C01.r01_3(ctx)
+    o.rule = "R05.5"
+    o.text = ("every boundary curve of one operand is cut against every boundary curve of the other (all pairs, not "
+              "index-wise, not only the first) before any piece is selected (same analysis as R01.3)")
+    return o
+
+
+RULES = [r05_1, r05_2, r05_3, r05_4, r05_5]
